@@ -339,7 +339,7 @@ fn word_ops(w: u16, n: usize) -> Vec<BitOp> {
 }
 
 pub fn c06(run: &mut Run) {
-    run.rule = "Exhaustive: (a) every partial prefix of 0-10 bits (2047 shift-register states, each reached by feeding the prefix to a fresh decoder) x next bit: 'incomplete' until the 11th bit, then the whole-word model's verdict; (b) all 2048 x 2048 ordered frame pairs bit by bit on a fresh decoder: both results must equal whole-word decoding whatever the first frame was; (c) every partial state -> clear() -> every frame. Random: chunked bit streams (valid frames, 1-2 flipped bits, random 11 bits, partial frame + clear(), clear() at a boundary, random runs) against the bit-serial model through Ps2Decoder and through Keyboard::add_bit/clear. Non-trivial = pair with exactly one of the two frames rejected; clear() with >= 1 pending bit followed by a frame; random stream containing a rejected frame followed by an accepted one or a clear() with pending bits. Exhaustive cases are distinct by construction, random ones by op-string fingerprint.".into();
+    run.rule = "Exhaustive: (a) every partial prefix of 0-10 bits (2047 shift-register states, each reached by feeding the prefix to a fresh decoder) x next bit: 'incomplete' until the 11th bit, then the whole-word model's verdict; (b) all 2048 x 2048 ordered frame pairs bit by bit on a fresh decoder: both results must equal whole-word decoding whatever the first frame was; (c) every partial state -> clear() -> every frame. Pumping: frames and partial-frame+clear() patterns repeated for >= 80,000 bits. Random: chunked bit streams (valid frames, bursts of rejected frames, 1-2 flipped bits, random 11 bits, partial frame + clear(), clear() at a boundary, random runs) against the bit-serial model through Ps2Decoder and through Keyboard::add_bit/clear. Non-trivial = pair with exactly one of the two frames rejected; clear() with >= 1 pending bit followed by a frame; random stream containing a rejected frame followed by an accepted one or a clear() with pending bits. Exhaustive cases are distinct by construction, random ones by op-string fingerprint.".into();
     run.assumptions = vec!["Ps2Decoder is deterministic; each case starts from Ps2Decoder::new()".into()];
 
     // (a) partial states x next bit
@@ -480,6 +480,27 @@ pub fn c06(run: &mut Run) {
         ops.extend(word_ops(frame::encode(0xF0), 11));
         run.sample(|| json!({"layer":"partial+clear+frame","ops":ops_compact(&ops)}));
     }
+    // (c') pumping: the same frame / partial frame + clear() repeated far beyond 2^16 bits
+    let mut bits = 0u64;
+    let pats: Vec<Vec<BitOp>> = vec![
+        word_ops(frame::encode(0x1C), 11),
+        word_ops(frame::encode(0x1C) ^ 0x200, 11),
+        word_ops(0x7FF, 11),
+        word_ops(0x000, 11),
+        { let mut v = word_ops(0b1011, 4); v.push(BitOp::Clear); v.extend(word_ops(frame::encode(0xF0), 11)); v },
+        { let mut v = word_ops(frame::encode(0xE0) ^ 0x400, 11); v.extend(word_ops(frame::encode(0xE0), 11)); v },
+        vec![BitOp::Bit(true)],
+        vec![BitOp::Bit(false)],
+        vec![BitOp::Bit(true), BitOp::Clear],
+    ];
+    for pat in &pats {
+        let reps = 80_000 / pat.len() + 1;
+        let ops: Vec<BitOp> = pat.iter().copied().cycle().take(reps * pat.len()).collect();
+        bits += ops.len() as u64;
+        c06_eval_ops(run, &ops);
+        run.nontrivial_fp(fp(&("pump", ops_compact(pat))));
+    }
+    run.part("pumping", json!({"ops_fed": bits, "patterns": pats.iter().map(|p| ops_compact(p)).collect::<Vec<_>>()}));
     run.exhaustive = true;
 
     // (e) thorough: triples on a stratified sample (first two frames from each class)
